@@ -139,7 +139,7 @@ type updateCase struct {
 }
 
 func suiteUpdateCLI(env *Env, res *Result) {
-	res.Rule = "CRS trees with one rules file in CRS layout (1..5 rules, chains 0..3, negated and other operators, comments mentioning ids, 7-digit neighbours, LF/CRLF, missing final newline, trailing blanks after the line continuation) and a second rules file with another prefix; assembly file for one target (rule or chain offset, sometimes beyond the chain or for a missing rule); histories: update, compare, update again, flip one byte of the stored operand + compare; non-trivial = the update succeeds; distinct by case hash"
+	res.Rule = "CRS trees with one rules file in CRS layout (1..5 rules, chains 0..3, negated and other operators, comments mentioning ids, 7-digit neighbours, LF/CRLF, missing final newline, trailing blanks after the line continuation) and a second rules file with another prefix; assembly file for one target (rule or chain offset, sometimes beyond the chain or for a missing rule); histories: update, compare, update again, then one byte of the stored operand flipped / one byte appended to it / its last byte removed + compare; non-trivial = the update succeeds; distinct by case hash"
 	r := NewRng(env.Seed)
 	n := env.N(250, 4000)
 	cases := make([]updateCase, n)
@@ -208,11 +208,21 @@ func suiteUpdateCLI(env *Env, res *Result) {
 				idx := strings.Index(o.after2, o.gen.Stdout+"\" \\")
 				if idx >= 0 {
 					b := []byte(o.after2)
-					pos := idx + len(o.gen.Stdout)/2
-					if b[pos] == 'z' {
-						b[pos] = 'y'
-					} else {
-						b[pos] = 'z'
+					end := idx + len(o.gen.Stdout)
+					switch mode := i % 3; {
+					case mode == 1:
+						// one byte more at the end of the stored operand (the generated regex is a proper prefix of it)
+						b = append(append(append([]byte{}, b[:end]...), 'z'), b[end:]...)
+					case mode == 2 && len(o.gen.Stdout) >= 2:
+						// the last byte of the stored operand missing (it is a proper prefix of the generated regex)
+						b = append(append([]byte{}, b[:end-1]...), b[end:]...)
+					default:
+						pos := idx + len(o.gen.Stdout)/2
+						if b[pos] == 'z' {
+							b[pos] = 'y'
+						} else {
+							b[pos] = 'z'
+						}
 					}
 					o.flipped = string(b)
 					_ = os.WriteFile(rulesPath, b, 0o644)
